@@ -288,15 +288,29 @@ where
             props: irs
                 .into_iter()
                 .map(|(prop_name, mut ir)| {
+                    // `None` is a type that can't be checked at runtime (`any`, `unknown`, ...):
+                    // like Vue's compiler, it turns the check off instead of standing for `null`.
+                    let mut skip_check = false;
+                    if ir.types.contains(&None) {
+                        if ir.types.contains(&Some(atom!("Boolean")))
+                            || ir.types.contains(&Some(atom!("Function")))
+                        {
+                            ir.types.retain(|ty| ty.is_some());
+                            skip_check = true;
+                        } else {
+                            ir.types.clear();
+                            ir.types.insert(None);
+                        }
+                    }
+                    let build_type = |ty: Option<Atom>| match ty {
+                        Some(ty) if ty != "null" => Expr::Ident(quote_ident!(ty).into()),
+                        _ => Expr::Lit(Lit::Null(Null { span: DUMMY_SP })),
+                    };
                     let mut props = vec![
                         PropOrSpread::Prop(Box::new(Prop::KeyValue(KeyValueProp {
                             key: PropName::Ident(quote_ident!("type")),
                             value: Box::new(if ir.types.len() == 1 {
-                                if let Some(ty) = ir.types.pop().unwrap() {
-                                    Expr::Ident(quote_ident!(ty).into())
-                                } else {
-                                    Expr::Lit(Lit::Null(Null { span: DUMMY_SP }))
-                                }
+                                build_type(ir.types.pop().unwrap())
                             } else {
                                 Expr::Array(ArrayLit {
                                     elems: ir
@@ -304,11 +318,7 @@ where
                                         .into_iter()
                                         .map(|ty| {
                                             Some(ExprOrSpread {
-                                                expr: Box::new(if let Some(ty) = ty {
-                                                    Expr::Ident(quote_ident!(ty).into())
-                                                } else {
-                                                    Expr::Lit(Lit::Null(Null { span: DUMMY_SP }))
-                                                }),
+                                                expr: Box::new(build_type(ty)),
                                                 spread: None,
                                             })
                                         })
@@ -325,6 +335,15 @@ where
                             }))),
                         }))),
                     ];
+                    if skip_check {
+                        props.push(PropOrSpread::Prop(Box::new(Prop::KeyValue(KeyValueProp {
+                            key: PropName::Ident(quote_ident!("skipCheck")),
+                            value: Box::new(Expr::Lit(Lit::Bool(Bool {
+                                value: true,
+                                span: DUMMY_SP,
+                            }))),
+                        }))));
+                    }
                     if let Some((_, default)) = defaults.iter().flatten().find(|(name, _)| {
                         name.eq_ignore_span(&prop_name)
                             || if let (
@@ -958,7 +977,7 @@ where
                     runtime_types.insert(Some(atom!("Object")));
                 }
                 TsKeywordTypeKind::TsNullKeyword => {
-                    runtime_types.insert(None);
+                    runtime_types.insert(Some(atom!("null")));
                 }
                 TsKeywordTypeKind::TsBigIntKeyword => {
                     runtime_types.insert(Some(atom!("BigInt")));
@@ -966,8 +985,11 @@ where
                 TsKeywordTypeKind::TsSymbolKeyword => {
                     runtime_types.insert(Some(atom!("Symbol")));
                 }
-                _ => {
+                TsKeywordTypeKind::TsAnyKeyword | TsKeywordTypeKind::TsUnknownKeyword => {
                     runtime_types.insert(None);
+                }
+                _ => {
+                    runtime_types.insert(Some(atom!("null")));
                 }
             },
             TsType::TsTypeLit(TsTypeLit { members, .. }) => {
@@ -1046,7 +1068,9 @@ where
                                 .and_then(|type_params| type_params.params.first())
                             {
                                 let types = self.infer_runtime_type(ty);
-                                runtime_types.extend(types.into_iter().filter(|ty| ty.is_some()));
+                                runtime_types.extend(
+                                    types.into_iter().filter(|ty| ty.as_deref() != Some("null")),
+                                );
                             } else {
                                 runtime_types.insert(Some(atom!("Object")));
                             }
